@@ -14,7 +14,10 @@ out.append("|---|---|---|---|")
 for r in mut:
     al = "; ".join(f"**{k}** `{v}`" for k, v in sorted(r.get("alarms", {}).items())) or "—"
     out.append(f"| {r['id']} | {r['expect'].split(':')[0] if r['kind']=='breaking' else 'benign'} | {r['status']} | {al} |")
-base = {r["id"]: r for r in (load("seeded/baseline_results.json", {}) or {}).get("results", [])}
+base = {}
+for bf in ("seeded/baseline_results.json", "seeded/baseline_round2_results.json", "seeded/baseline_round3_results.json"):
+    for r in (load(bf, {}) or {}).get("results", []):
+        base[r["id"]] = r
 cur = {r["id"]: r for r in load("seeded/last_full_results.json", [])}
 out.append("\n#### Independently written changes (`seeded/<id>/`, sub-agents that saw only the property text)\n")
 out.append("| id | property | what it does / what it needs | first run (machinery before I read the change) | now: checks that report it |")
